@@ -4,6 +4,8 @@ from vlib.core import Stage
 ID = "C01"
 STAGES = [
     Stage("solve", "p01_solve", "plain", {"quick": 96, "thorough": 3000}, timeout_per_case=300),
+    # the recorded configuration of the open finding F16 (fixed options): reproduces it on every run
+    Stage("f16-witness", "p01_solve", "plain", {"quick": 1, "thorough": 1}, args={"witness": "F16"}, offset=9000000, timeout_per_case=300),
 ]
 THRESHOLDS = {
     "solution_finite": 0.5,
